@@ -250,12 +250,18 @@ func initTopicP2P(t *Topic, sreg *ClientComMessage) error {
 			return err
 		}
 
-		// Case 3, fail
+		// Case 3: an orphan row. Both subscriptions are deleted but the topic's own deletion has failed or never ran
+		// (they are separate store calls). Finish the deletion and proceed as for a new topic.
 		if len(subs) == 0 {
-			logs.Err.Println("hub: missing both subscriptions for '" + t.name + "' (SHOULD NEVER HAPPEN!)")
-			return types.ErrInternal
+			logs.Warn.Println("hub: missing both subscriptions for '" + t.name + "', deleting the orphan topic")
+			if err = store.Topics.Delete(t.name, false, true); err != nil {
+				return err
+			}
+			stopic = nil
 		}
+	}
 
+	if stopic != nil {
 		t.created = stopic.CreatedAt
 		t.updated = stopic.UpdatedAt
 		if !stopic.TouchedAt.IsZero() {
